@@ -157,6 +157,9 @@ func (c *ctx) probeConn(i int) {
 						sub = "after-request-255"
 					}
 					c.vs("C08/dispatched-after-violation", sub, "conn %d: packet op %d %s violates the sequence rules (%s) but a handler ran with %s", id, pr.Op, hstr(pr.H), pr.Why, hstr(inv.H))
+					if sub == "after-request-255" {
+						c.v("C06/exhausted-session-continued", "conn %d: the session of packet op %d %s had used up its sequence numbers (request 255), yet the packet was handled: whatever is replied to it carries a number of a second lap", id, pr.Op, hstr(pr.H))
+					}
 				case "badsecret":
 					c.v("C19/mismatch-processed", "conn %d: packet op %d %s has the key-mismatch signature but a handler ran", id, pr.Op, hstr(pr.H))
 				case "truncated":
